@@ -23,9 +23,19 @@ canonical program (`c01_accepted_iff_valid`).  And what the text does is what th
 position in a runtime error, with the plan the analyses compute FROM THE TREE (none when a limit trips:
 `c01_accepted_runs_like_the_tree_no_plan`).
 
-Not composed here: that the plan is unobservable (C03, `c03_pipeline`).  `Props/C03.lean` and
-`Props/C09.lean` cannot be imported into one module as they stand: `Lemmas/ResolveLex.lean` (under C03)
-and `Lemmas/ResolveTypesStmt.lean` (under C09) both declare `NaijaVerif.Resolve.findVar_updateTy`.
+Composed with C03 (`c01_text_means_tree`, `c01_layout_means_tree`): the plan is unobservable, so what a
+valid text does is what the documented semantics does on the annotated tree WITHOUT any plan — whatever
+the layout, the caps and the plan the analyses compute under them.  If `Eval.run` without a plan on
+`(resolve b).root` ends (within its fuel) with the observation `o` — printed values, and a normal ending
+or a runtime error other than `Undefined variable` — then for all sufficiently large fuel
+`Pipeline.runSource` on the text is a run with that observation `o`.  Hypotheses besides validity: the
+current code (`lookup = dynamic`, `panics = false`), no input, a number type whose `ofLit` accepts the
+scanner's lexemes (`NumLitsParse`), and C03's remaining decidable side condition on the TREE,
+`structRest2B (resolve b).root (resolve b).facts` (the part of `structOkB` not proved of the resolver model,
+see `Props/C03.lean`; stated of the tree, so no span-independence of it is needed: C03 is applied to the
+tree — `c03_eval` — and the text is brought to the tree by `c01_accepted_runs_like_the_tree_tokens`).
+The scanner / parser guarantees C03 and C06 need of the checker's input (`Bridge.srcBlock`) are moved from
+the parsed text to the tree by `Lemmas/SpanEraseSource.lean`.
 
 Coverage of the printer: `printBlock` prints a static string as the `escaped` string token, so the
 layout-based statements say nothing about a tree that holds a static string without an escape sequence
@@ -33,6 +43,8 @@ layout-based statements say nothing about a tree that holds a static string with
 -/
 import NaijaVerif.Props.C10
 import NaijaVerif.Props.C09
+import NaijaVerif.Props.C03
+import NaijaVerif.Lemmas.SpanEraseSource
 
 namespace NaijaVerif.C01Accept
 open NaijaVerif NaijaVerif.Lex NaijaVerif.Parse NaijaVerif.Props.C10Lex NaijaVerif.C10Parse
@@ -308,6 +320,108 @@ theorem c01_accepted_runs_like_the_tree_no_plan {N : Type} [NumOps N] (p : Expr 
   rw [htrip a₀ ha₀] at ho
   exact ⟨ws, o, hrun, ho⟩
 
+/-! ### What the text does is what the tree means, whatever the plan (C01 ∘ C03) -/
+
+section Means
+open NaijaVerif.C03 (evalObs rtCode toEvalPlan)
+open NaijaVerif.Props.C06Accepted (NumLitsParse)
+open NaijaVerif.Bridge (isNumLexeme)
+open NaijaVerif.ResolveStruct (structRest2B)
+
+/-- The scanner / parser guarantees (number lexemes of the scanner's shape; with `strict`, every index
+assignment has an index) hold of a canonical TREE whose printed tokens some text lexes to: they hold of
+the parse of the text (`Bridge.parse_source_ok`), which is the tree up to spans. -/
+theorem canon_source_ok (p : Expr → Nat) (b : Block) (hc : CanonBlock p b) (s : Bytes)
+    (ht : (lex s).1.map (·.tok) = (programToks p b).map (·.tok)) (strict : Bool) :
+    Bridge.srcBlock ⟨[], isNumLexeme, strict, none⟩ b = true := by
+  obtain ⟨_, hast⟩ := text_parses_to_tree p b hc s ht
+  have hast' : eraseSpans (parseProgram (lex s).1).1 = eraseSpans b := by
+    rw [hast, canon_eraseSpans p b hc]
+  rw [← srcBlock_congr_erase _ hast']
+  exact Bridge.parse_source_ok ⟨[], isNumLexeme, strict, none⟩ Bridge.isNumLexeme_zero _ (Bridge.lex_numbers s)
+
+/-- The analyses' plan as the runtime takes it is the model's plan of C03. -/
+theorem analysisPlan_eq (root : Block) (facts : Facts) :
+    analysisPlan root facts = toEvalPlan (Analysis.planModel root facts) := rfl
+
+/-- **C01 ∘ C03, from the tokens on: what a valid text does is what its tree means.**  Let `b` be a
+canonical program that satisfies the documented static rules, and `s` a text that lexes without a
+diagnostic to the printed tokens of `b`.  For the current code (`lookup = dynamic`, `panics = false`), no
+input, every number type whose `ofLit` accepts the scanner's lexemes, and under C03's remaining decidable
+side condition on the annotated tree (`structRest2B`; no plan, no caps, no text in it): if the documented
+semantics `Eval.run` WITHOUT a plan, on the annotated tree `(resolve b).root`, ends within its fuel with the
+observation `o` — the printed values, and a normal ending or the kind of a runtime error other than
+`Undefined variable` — then for EVERY limit configuration and all sufficiently large fuel the shipped
+pipeline on the TEXT — lexer, parser, checker, limit preflight, analyses, and the run with whatever plan
+the analyses computed under those caps — is a run (`.ran`) with the same observation `o`. -/
+theorem c01_text_means_tree {N : Type} [NumOps N] (hnum : NumLitsParse N isNumLexeme)
+    (p : Expr → Nat) (b : Block) (hc : CanonBlock p b) (hwf : Spec.WF b)
+    (s : Bytes) (hl : (lex s).2 = []) (ht : (lex s).1.map (·.tok) = (programToks p b).map (·.tok))
+    (caps : Limits.Caps) (cfg : Eval.RunCfg)
+    (hlk : cfg.lookup = .dynamic) (hpn : cfg.panics = false) (hin : cfg.input = [])
+    (hrest : structRest2B (Resolve.resolve b).root (Resolve.resolve b).facts = true)
+    (f : Nat) (o : List (Eval.Value N) × Nat)
+    (hrun : evalObs (Eval.run (N := N) { cfg with plan := none } f (Resolve.resolve b).root) = some o)
+    (hund : o.2 ≠ 10 + rtCode .undefinedVariable) :
+    ∃ f', ∀ g, f' ≤ g → ∃ ws out, (runSource caps cfg g s : Pipeline.Result N) = .ran ws out ∧
+      evalObs out = some o := by
+  -- the checker accepts the tree
+  have hacc : Props.C06Eval.Accepted b := C09.c09_well_formed_accepted b hwf
+  have hrd : (Resolve.resolve b).rdiags = [] := Props.C06Accepted.accepted_rdiags hacc
+  -- C03's side conditions, of the tree
+  have hok := C03.resolve_okBlock isNumLexeme b (canon_source_ok p b hc s ht false) hrd
+  have hs := C03.resolve_structOk2 b hrd hrest
+  -- C06: the plain run of the tree does not crash the interpreter
+  have hpan : o.2 ≠ 2 := by
+    intro h2
+    have hnp := Props.C06Accepted.c06_accepted isNumLexeme hnum { cfg with plan := none } hpn (Or.inl hlk) b hacc
+      (Props.C06Accepted.planReach_none _ rfl _) (canon_source_ok p b hc s ht true) f
+    generalize Eval.run (N := N) { cfg with plan := none } f (Resolve.resolve b).root = r at hrun hnp
+    cases r with
+    | ok out => simp only [evalObs, Option.some.injEq] at hrun; rw [← hrun] at h2; cases h2
+    | rt k sp out =>
+      simp only [evalObs, Option.some.injEq] at hrun; rw [← hrun] at h2
+      simp only at h2; omega
+    | panic site out => cases hnp
+    | fuelOut => cases hrun
+  -- C03 on the tree: the run with the model's plan ends with `o`
+  obtain ⟨f₁, hf₁⟩ := C03.c03_eval (N := N) cfg isNumLexeme (Resolve.resolve b).root (Resolve.resolve b).facts
+    (Analysis.planModel (Resolve.resolve b).root (Resolve.resolve b).facts) f hlk hpn hin
+    (fun lex h => Option.isSome_iff_exists.mp (hnum lex h)) hok hs (by simp [Analysis.Plan.sub, Analysis.subset])
+    o hrun hund hpan
+  refine ⟨max f f₁, fun g hg => ?_⟩
+  -- C01: the text runs like the tree, with the plan the analyses compute from the tree under `caps`
+  obtain ⟨a₀, ws, out, _, _, hplan, hran, _, hout⟩ :=
+    c01_accepted_runs_like_the_tree_tokens (N := N) p b hc hwf s hl ht caps cfg g
+  refine ⟨ws, out, hran, ?_⟩
+  rw [evalObs_congr hout]
+  rcases hplan with hp0 | hp1
+  · rw [hp0]
+    exact PipelinePrune.evalObs_mono _ (by omega) _ hrun
+  · rw [hp1, analysisPlan_eq]
+    exact PipelinePrune.evalObs_mono _ (by omega) _ hf₁
+
+/-- **C01 ∘ C03: what a valid text does is what its tree means**, for every valid layout of the printed
+tokens of `b` — any separators, comments, line ends, spelling of the multi-word keywords, redundant
+parentheses —, every limit configuration and whatever plan the analyses hand over. -/
+theorem c01_layout_means_tree {N : Type} [NumOps N] (hnum : NumLitsParse N isNumLexeme)
+    (p : Expr → Nat) (b : Block) (hc : CanonBlock p b) (hwf : Spec.WF b)
+    {lead tr : Bytes} (l : Layout) (hlead : Sep lead) (htr : Trail tr) (hv : Valid tr l)
+    (hk : l.toks = printBlock p b)
+    (caps : Limits.Caps) (cfg : Eval.RunCfg)
+    (hlk : cfg.lookup = .dynamic) (hpn : cfg.panics = false) (hin : cfg.input = [])
+    (hrest : structRest2B (Resolve.resolve b).root (Resolve.resolve b).facts = true)
+    (f : Nat) (o : List (Eval.Value N) × Nat)
+    (hrun : evalObs (Eval.run (N := N) { cfg with plan := none } f (Resolve.resolve b).root) = some o)
+    (hund : o.2 ≠ 10 + rtCode .undefinedVariable) :
+    ∃ f', ∀ g, f' ≤ g → ∃ ws out, (runSource caps cfg g (lead ++ render tr l) : Pipeline.Result N) = .ran ws out ∧
+      evalObs out = some o := by
+  obtain ⟨a1, a2⟩ := c10_lex_roundtrip hlead htr l hv
+  exact c01_text_means_tree hnum p b hc hwf _ a2 (by rw [a1, hk, programToks_toks]) caps cfg hlk hpn hin hrest
+    f o hrun hund
+
+end Means
+
 /-! ### Non-vacuity -/
 
 section Examples
@@ -448,6 +562,85 @@ example (cfg : RunCfg) (fuel : Nat) :
       intro a₀ h₀
       rw [h₀] at h
       exact Option.isNone_iff_eq_none.mp h)
+
+/-! `c01_text_means_tree` (C01 ∘ C03).  Numbers: `trivialNum` (`Props/C06Accepted.lean`), a number type for
+which `NumLitsParse _ isNumLexeme` holds. -/
+
+section MeansExamples
+open NaijaVerif.C03 (evalObs)
+open NaijaVerif.Props.C06Accepted (trivialNum)
+open NaijaVerif.ResolveStruct (structRest2B)
+
+/-- C03's remaining side condition holds of `demoProg` … -/
+theorem demoProg_rest :
+    structRest2B (Resolve.resolve demoProg).root (Resolve.resolve demoProg).facts = true := by decide +kernel
+
+/-- … so all hypotheses of `c01_text_means_tree` are discharged for `demoText`: under every limit
+configuration the text is run and ends like its tree under the documented semantics without a plan. -/
+example (caps : Limits.Caps) : ∃ o f', o.2 = 0 ∧ ∀ g, f' ≤ g → ∃ ws out,
+    (@runSource Unit trivialNum caps Toy.cfg g demoText) = .ran ws out ∧ evalObs out = some o := by
+  obtain ⟨o, ho, ho2⟩ : ∃ o, evalObs (@Eval.run Unit trivialNum { Toy.cfg with plan := none } 200
+      (Resolve.resolve demoProg).root) = some o ∧ o.2 = 0 :=
+    PipelinePrune.evalObs_endsOk (by decide +kernel)
+  obtain ⟨f', hf'⟩ := @c01_text_means_tree Unit trivialNum (fun _ _ => rfl) demoQ demoProg demoProg_canon
+    demoProg_valid demoText demoText_tokens.1 demoText_tokens.2 caps Toy.cfg rfl rfl rfl demoProg_rest 200 o ho
+    (by rw [ho2]; decide)
+  exact ⟨o, f', ho2, hf'⟩
+
+/-- A program the analyses really prune: the value stored by `x get 2` is never read. -/
+def pruneProg : Block :=
+  .mk [.assign (b!"x") zspan (.num (b!"1") zspan) none none zspan,
+       .assignExisting (b!"x") zspan (.num (b!"2") zspan) none none zspan,
+       .assignExisting (b!"x") zspan (.num (b!"3") zspan) none none zspan,
+       .expr (.call (v (b!"shout")) [v (b!"x")] none zspan) none zspan] zspan
+
+/-- one redundant pair around the literal `2` -/
+def pruneQ : Expr → Nat
+  | .num [50] _ => 1
+  | _ => 0
+
+def pruneText : Bytes := b!"make x get 1 # never read\nx get (2)\r\n\tx get 3\nshout(x) # 3"
+
+theorem pruneProg_canon : CanonBlock pruneQ pruneProg := by
+  simp only [pruneProg, v, CanonBlock, CanonStmts, CanonStmt, Parse.WF, WFs, isBareRet, and_self, true_and]
+  exact ⟨b!"shout", [.lparen, .ident (b!"x"), .rparen], by decide⟩
+
+theorem pruneProg_valid : Spec.WF pruneProg := by decide +kernel
+
+theorem pruneText_tokens : (lex pruneText).2 = [] ∧
+    (lex pruneText).1.map (·.tok) = (programToks pruneQ pruneProg).map (·.tok) := by decide +kernel
+
+theorem pruneProg_rest :
+    structRest2B (Resolve.resolve pruneProg).root (Resolve.resolve pruneProg).facts = true := by decide +kernel
+
+-- the plan of the analyses removes statement 1; under `roomyCaps` the front end hands that plan to the
+-- runtime, under `tightCaps` (a limit trips) none — `c01_text_means_tree` covers both
+example : Analysis.planModel (Resolve.resolve pruneProg).root (Resolve.resolve pruneProg).facts = ⟨[1], []⟩ := by
+  decide +kernel
+example : (frontEnd C10.roomyCaps pruneText).toOption.map (fun a => a.plan.map (·.stmts)) = some (some [1]) ∧
+    (frontEnd tightCaps pruneText).toOption.map (fun a => a.plan.map (·.stmts)) = some none := by decide +kernel
+
+/-- An instance of `c01_text_means_tree` where the run of the text skips a statement the plain run of
+the tree executes. -/
+example (caps : Limits.Caps) : ∃ o f', o.2 = 0 ∧ ∀ g, f' ≤ g → ∃ ws out,
+    (@runSource Unit trivialNum caps Toy.cfg g pruneText) = .ran ws out ∧ evalObs out = some o := by
+  obtain ⟨o, ho, ho2⟩ : ∃ o, evalObs (@Eval.run Unit trivialNum { Toy.cfg with plan := none } 50
+      (Resolve.resolve pruneProg).root) = some o ∧ o.2 = 0 :=
+    PipelinePrune.evalObs_endsOk (by decide +kernel)
+  obtain ⟨f', hf'⟩ := @c01_text_means_tree Unit trivialNum (fun _ _ => rfl) pruneQ pruneProg pruneProg_canon
+    pruneProg_valid pruneText pruneText_tokens.1 pruneText_tokens.2 caps Toy.cfg rfl rfl rfl pruneProg_rest 50 o ho
+    (by rw [ho2]; decide)
+  exact ⟨o, f', ho2, hf'⟩
+
+-- with the toy `Int` numbers: the text prints `3` with the plan and without it, and so does the tree
+example : C10.shown (runSource C10.roomyCaps Toy.cfg 50 pruneText) =
+    (2, [.unusedAssignment, .unusedAssignment], [b!"3"], 0, none) := by decide +kernel
+example : C10.shown (runSource tightCaps Toy.cfg 50 pruneText) = (2, [.analysisLimit], [b!"3"], 0, none) := by
+  decide +kernel
+example : (Toy.summary (Eval.run (N := Int) Toy.cfg 50 (Resolve.resolve pruneProg).root)) = ([b!"3"], 0) := by
+  decide +kernel
+
+end MeansExamples
 
 end Examples
 
